@@ -93,7 +93,10 @@ def concretise(f, k, rng, variant=0):
     if c == "absent":
         return None
     if c == "str":
-        return "".join(rng.choice("ABCDEFGHJKabcdefgh0123456789") for _ in range(k["len"]))
+        t = "".join(rng.choice("ABCDEFGHJKabcdefgh0123456789") for _ in range(k["len"]))
+        if variant % 3 == 2 and k["len"] >= 2:
+            t = t[:-1] + " "          # a name that ends in a blank ('SAND ') is a name, and comes back exactly
+        return t
     if c == "int":
         n = k["nd"]
         v = rng.randint(10 ** (n - 1), 10 ** n - 1) if n > 1 else rng.randint(0, 9)
